@@ -102,6 +102,13 @@ impl<VM: VMBinding, B: Region> BlockPageResource<VM, B> {
         // Retry fast allocation
         if let Some(block) = self.block_queue.pop() {
             self.commit_pages(reserved_pages, required_pages, tls);
+            #[cfg(feature = "verif")]
+            crate::util::verif::c28::log(
+                self.common(),
+                crate::util::verif::c28::GRANT,
+                block.start(),
+                required_pages,
+            );
             return Result::Ok(PRAllocResult {
                 start: block.start(),
                 pages: required_pages,
@@ -136,6 +143,13 @@ impl<VM: VMBinding, B: Region> BlockPageResource<VM, B> {
         self.block_queue.add_global_array(array);
         // Finish slow-allocation
         self.commit_pages(reserved_pages, required_pages, tls);
+        #[cfg(feature = "verif")]
+        crate::util::verif::c28::log(
+            self.common(),
+            crate::util::verif::c28::GRANT,
+            first_block,
+            required_pages,
+        );
         Result::Ok(PRAllocResult {
             start: first_block,
             pages: required_pages,
@@ -156,6 +170,13 @@ impl<VM: VMBinding, B: Region> BlockPageResource<VM, B> {
         // Fast allocate from the blocks list
         if let Some(block) = self.block_queue.pop() {
             self.commit_pages(reserved_pages, required_pages, tls);
+            #[cfg(feature = "verif")]
+            crate::util::verif::c28::log(
+                self.common(),
+                crate::util::verif::c28::GRANT,
+                block.start(),
+                required_pages,
+            );
             return Result::Ok(PRAllocResult {
                 start: block.start(),
                 pages: required_pages,
@@ -168,6 +189,13 @@ impl<VM: VMBinding, B: Region> BlockPageResource<VM, B> {
 
     pub fn release_block(&self, block: B) {
         let pages = 1 << Self::LOG_PAGES;
+        #[cfg(feature = "verif")]
+        crate::util::verif::c28::log(
+            self.common(),
+            crate::util::verif::c28::RELEASE,
+            block.start(),
+            pages as usize,
+        );
         debug_assert!(pages as usize <= self.common().accounting.get_committed_pages());
         self.common().accounting.release(pages as _);
         self.block_queue.push(block)
